@@ -158,7 +158,10 @@ fn parenthesize_invisible_groups(stream: TokenStream) -> TokenStream {
                 };
                 let mut group =
                     Group::new(delimiter, parenthesize_invisible_groups(g.stream()));
-                group.set_span(g.span());
+                // The added parentheses are the derive's own, not the user's to be linted.
+                if delimiter == g.delimiter() {
+                    group.set_span(g.span());
+                }
                 TokenTree::Group(group)
             }
             tt => tt,
